@@ -40,7 +40,7 @@ def c_history(e1: int, e2: int, e3: int, e4: int, a1: bool, a2: bool, a3: bool, 
             devs.append('request-response-awaitable-left-pending-after-connection-loss')
         if any(isinstance(f, ErrorFrame) and f.stream_id == SID for f in o.t.frames()):
             devs.append('C07:rr_req:awaitable-resolved-twice(ERROR-emitted-by-requester)')
-    if o.loop.exc:
+    if o.loop.errors():
         devs.append('loop-exception-handler-called')
     if o.loop.livelock:
         devs.append('livelock')
